@@ -10,6 +10,7 @@ import H2V.Lemmas.ConnCountsPPrim
 -/
 namespace H2V.Lemmas.ConnCountsP
 open H2V H2V.Model H2V.Model.Conn
+attribute [local irreducible] wrapSubU32 wrapSubUsize
 
 -- ===================================================================== `Same` for stream methods
 
@@ -44,19 +45,50 @@ theorem assignCapacity_same (x : Stream) (a b : Nat) : Same x (x.assignCapacity 
   · exact Same.trans (b := { x with sendFlow := (x.sendFlow.assignCapacity a).1 }) (by same_fields) (notifyCapacity_same _)
   · same_fields
 
-/-- (stated by hand: `unfold Stream.sendData` produces a term the kernel chokes on) -/
-theorem sendData_fst (x : Stream) (a b : Nat) :
-    (x.sendData a b).1 =
-      (if x.capacity b < ({ x with sendFlow := (x.sendFlow.sendData a).1, bufferedSendData := wrapSubUsize x.bufferedSendData a, requestedSendCapacity := wrapSubU32 x.requestedSendCapacity a } : Stream).capacity b
-        then ({ x with sendFlow := (x.sendFlow.sendData a).1, bufferedSendData := wrapSubUsize x.bufferedSendData a, requestedSendCapacity := wrapSubU32 x.requestedSendCapacity a } : Stream).notifyCapacity
-        else ({ x with sendFlow := (x.sendFlow.sendData a).1, bufferedSendData := wrapSubUsize x.bufferedSendData a, requestedSendCapacity := wrapSubU32 x.requestedSendCapacity a }, [])).1 := rfl
+open Lean Elab Command Meta in
+/-- `abstract_const f c as g`: defines `g := fun (x : type of c) => (value of f)[c := x]`, so that
+    `f = g c` holds by unfolding both sides to syntactically identical terms.
+    (Needed for `Stream.sendData`: unfolding it makes the kernel evaluate `Nat.decLt` on
+    `… + 2^64 …` in unary; with the instance abstracted the `if` is stuck on a variable.
+    Technique relayed from the C03 proof.) -/
+elab "abstract_const " f:ident c:ident " as " g:ident : command => liftTermElabM do
+  let fn ← realizeGlobalConstNoOverloadWithInfo f
+  let cn ← realizeGlobalConstNoOverloadWithInfo c
+  let finfo ← getConstInfo fn
+  let cinfo ← getConstInfo cn
+  let some val := finfo.value? | throwError "no value"
+  unless finfo.levelParams.isEmpty && cinfo.levelParams.isEmpty do throwError "universe polymorphic"
+  let cty := cinfo.type
+  let (gval, gty) ← withLocalDeclD `inst cty fun x => do
+    let v := val.replace fun e => if e.isConstOf cn then some x else none
+    let gval ← mkLambdaFVars #[x] v
+    let gty ← mkForallFVars #[x] finfo.type
+    pure (gval, gty)
+  let gname := (← getCurrNamespace) ++ g.getId
+  let hints := ReducibilityHints.regular (getMaxHeight (← getEnv) gval + 1)
+  addDecl (.defnDecl { name := gname, levelParams := [], type := gty, value := gval, hints := hints, safety := .safe })
+
+abstract_const Stream.sendData Nat.decLt as sendDataG
+theorem sendData_eq_G : Stream.sendData = sendDataG Nat.decLt := rfl
+
+theorem sendDataG_same (inst : ∀ p q : Nat, Decidable (p < q)) (x : Stream) (a b : Nat) :
+    Same x (sendDataG inst x a b).1 := by
+  unfold sendDataG
+  generalize x.sendFlow.sendData a = p
+  obtain ⟨fl, r⟩ := p
+  dsimp only
+  generalize inst _ _ = d
+  cases d with
+  | isTrue h =>
+    simp only [if_pos h]
+    refine Same.trans ?_ (notifyCapacity_same _)
+    same_fields
+  | isFalse h =>
+    simp only [if_neg h]
+    same_fields
 
 theorem sendData_same (x : Stream) (a b : Nat) : Same x (x.sendData a b).1 := by
-  rw [sendData_fst]
-  split
-  · refine Same.trans ?_ (notifyCapacity_same _)
-    same_fields
-  · same_fields
+  rw [sendData_eq_G]; exact sendDataG_same _ x a b
 
 theorem waitSend_same (x : Stream) (t : String) : Same x (x.waitSend t) := by unfold Stream.waitSend; same_fields
 theorem waitOpen_same (x : Stream) (t : String) : Same x (x.waitOpen t) := by unfold Stream.waitOpen; same_fields
@@ -112,7 +144,6 @@ macro_rules | `(tactic| ev_side) => `(tactic| (intro _; rfl))
 macro_rules | `(tactic| ev_side) => `(tactic| (intro _ _; same_tac))
 macro_rules | `(tactic| ev_side) => `(tactic| exact NextOK.refl _ _)
 macro_rules | `(tactic| ev_side) => `(tactic| exact CStep.refl _)
-macro_rules | `(tactic| ev_side) => `(tactic| (intro h; cases h))
 macro_rules | `(tactic| ev_side) => `(tactic| decide)
 macro_rules | `(tactic| ev_side) => `(tactic| assumption)
 
@@ -147,7 +178,15 @@ elab "ev_head" : tactic => withMainContext do
       | _ => "?"
     let lemmaName := (`H2V.Lemmas.ConnCountsP).str (last ++ "_ev")
     unless (← getEnv).contains lemmaName do throwError "ev_head: no lemma {lemmaName}"
-    evalTactic (← `(tactic| (refine Ev.trans ?evmain ?evlem; case evlem => (with_reducible apply $(mkIdent lemmaName)) <;> ev_side)))
+    let gs ← g.apply (← mkConstWithFreshMVarLevels ``Ev.trans)
+    let gs ← gs.filterM fun m => do
+      let ty ← instantiateMVars (← m.getType)
+      pure (ty.isAppOfArity ``Ev 2)
+    match gs with
+    | [g1, g2] =>
+      let side ← withReducible (g2.apply (← mkConstWithFreshMVarLevels lemmaName))
+      replaceMainGoal (g1 :: side)
+    | _ => throwError "ev_head: unexpected goals after Ev.trans"
 
 /-- one step on an `Ev` goal (alternatives are tried bottom-up) -/
 syntax "ev_step" : tactic
@@ -156,9 +195,9 @@ macro_rules | `(tactic| ev_step) => `(tactic| with_reducible refine Ev.of_fst_eq
 macro_rules | `(tactic| ev_step) => `(tactic| with_reducible assumption)
 macro_rules | `(tactic| ev_step) => `(tactic| with_reducible exact Ev.refl _)
 
-macro "ev_auto" : tactic => `(tactic| repeat (first | ev_step | split | dsimp only))
+macro "ev_auto" : tactic => `(tactic| repeat (first | ev_step | ev_side | intro _ | split | dsimp only))
 /-- the same with an induction hypothesis `ih : ∀ …, Ev s (loop n … s …)` -/
 macro "ev_auto_ih" ih:ident : tactic =>
-  `(tactic| repeat (first | ev_step | with_reducible refine Ev.trans ?_ ($ih ..) | split | dsimp only))
+  `(tactic| repeat (first | ev_step | with_reducible refine Ev.trans ?_ ($ih ..) | ev_side | intro _ | split | dsimp only))
 
 end H2V.Lemmas.ConnCountsP
